@@ -350,6 +350,80 @@ pub fn c10(rep: &mut Report) {
             }
         }
     }
+    // scripted: the connection is given up locally (DISCONNECT handed to send()), but bytes of the peer that were
+    // already on their way are still fed to recv() before the transport is reported closed. Whatever they set up
+    // (a receive timer re-armed, an identifier noted) ends with notify_closed(): the reused object equals a fresh one
+    let mut scripted = 0u64;
+    for cfg in c10_configs(false) {
+        let ver = match cfg.ver {
+            Some(v) => v,
+            None => continue,
+        };
+        if cfg.offline {
+            continue;
+        }
+        let name = cfg.name.clone();
+        for as_client in sides_of(cfg.role) {
+            for late in 0..4usize {
+                for which in 0..2usize {
+                    scripted += 1;
+                    let late_ap = match late {
+                        0 => {
+                            if as_client {
+                                AP::Pingresp { ver }
+                            } else {
+                                AP::Pingreq { ver }
+                            }
+                        }
+                        1 => AP::Publish { ver, dup: false, qos: 0, retain: false, topic: b"a".to_vec(), pid: None, props: vec![], payload: b"p".to_vec() },
+                        2 => AP::Publish { ver, dup: false, qos: 1, retain: false, topic: b"a".to_vec(), pid: Some(7), props: vec![], payload: b"p".to_vec() },
+                        _ => AP::Publish { ver, dup: false, qos: 2, retain: false, topic: b"a".to_vec(), pid: Some(7), props: vec![], payload: b"p".to_vec() },
+                    };
+                    let hist: Vec<serde_json::Value> = vec![json!(format!("scripted: {} connection with keep alive 10, DISCONNECT sent, then {late_ap:?} received, notify_closed(); then handshake #{which} on the reused object vs a fresh object", if as_client { "client" } else { "server" }))];
+                    let r = guarded(|| {
+                        let mut a = fresh_conn::<u16>(&cfg, Some(ver));
+                        let mut t0: Trace = vec![];
+                        let cp = ConnProf { ka: 10, ..ConnProf::basic(true) };
+                        if as_client {
+                            send(&mut a, &mut t0, cp.ap(ver));
+                            recv(&mut a, &mut t0, AckProf::basic(false).ap(ver));
+                        } else {
+                            recv(&mut a, &mut t0, cp.ap(ver));
+                            send(&mut a, &mut t0, AckProf::basic(false).ap(ver));
+                        }
+                        send(&mut a, &mut t0, AP::Disconnect { ver, code: None, props: None });
+                        recv(&mut a, &mut t0, late_ap.clone());
+                        let _ = a.notify_closed();
+                        let mut b = fresh_conn::<u16>(&cfg, Some(ver));
+                        let ta = handshake(&mut a, ver, as_client, which);
+                        let tb = handshake(&mut b, ver, as_client, which);
+                        let sa = a.snap();
+                        let sb = b.snap();
+                        let pa = probe_script(&mut a, ver, as_client);
+                        let pb = probe_script(&mut b, ver, as_client);
+                        (ta, tb, sa, sb, pa, pb)
+                    });
+                    let side = if as_client { "client" } else { "server" };
+                    match r {
+                        Err(m) => rep.violation(Violation { rule: "c10.panic".into(), sig: format!("c10.panic|{}", crate::util::panic_sig(&m)), detail: format!("[{name}] panic in the late-bytes script: {m}"), config: name.clone(), history: hist }),
+                        Ok((ta, tb, sa, sb, pa, pb)) => {
+                            if let Some((step, x, y)) = first_diff(&ta, &tb) {
+                                rep.violation(Violation { rule: "c10.handshake-events".into(), sig: format!("c10.handshake-events|late bytes|{side}|{}", step.split(' ').take(2).collect::<Vec<_>>().join(" ")), detail: format!("[{name}] bytes received after the own DISCONNECT: at '{step}' the reused object returns {x:?}, a fresh object {y:?}"), config: name.clone(), history: hist.clone() });
+                            } else if sa != sb {
+                                let (names, text) = debug_diff(&sa, &sb);
+                                rep.violation(Violation { rule: "c10.state".into(), sig: format!("c10.state|late bytes|{side}|{}", names.join("+")), detail: format!("[{name}] bytes received after the own DISCONNECT: after the next handshake the reused object differs from a fresh one in {names:?}: {text}"), config: name.clone(), history: hist.clone() });
+                            } else if let Some((step, x, y)) = first_diff(&pa, &pb) {
+                                rep.violation(Violation { rule: "c10.probe-events".into(), sig: format!("c10.probe-events|late bytes|{side}|{}", step.split(' ').take(2).collect::<Vec<_>>().join(" ")), detail: format!("[{name}] bytes received after the own DISCONNECT: probe script at '{step}' reused {x:?} vs fresh {y:?}"), config: name.clone(), history: hist.clone() });
+                            }
+                        }
+                    }
+                }
+            }
+        }
+    }
+    rep.count("c10.late-bytes-scripts", scripted);
+    rep.floor("c10.late-bytes-scripts", 16);
+    compared += scripted;
     rep.count("c10.reuse-comparisons", compared);
     rep.count("c10.closed-states-compared", reused_states);
     rep.add_cov("traces_validated_against_impl", compared);
@@ -668,6 +742,15 @@ pub fn c16(rep: &mut Report) {
                         }
                         b.restore_packets(x_store.clone());
                         b.restore_handled(&x_handled);
+                        // the restored set *is* the session's set of handled identifiers: handed to an object that
+                        // still holds its own (the original), it replaces that set, it is not merged into it
+                        for other in [vec![], vec![7u32]] {
+                            let mut a2 = a.clone();
+                            a2.restore_handled(&other);
+                            if a2.handled() != other {
+                                direct.push(format!("restore_qos2_publish_handled({other:?}) between CONNECT and CONNACK on an object that holds {x_handled:?}: it now reports {:?}", a2.handled()));
+                            }
+                        }
                         if a.vacancy() != b.vacancy() {
                             direct.push(format!("restored after the CONNECT: vacancy {:?} on the original, {:?} on the restored object", a.vacancy(), b.vacancy()));
                         }
